@@ -52,7 +52,7 @@ fn main() {
             w.step(op, a, b);
         }
         let mut out: Vec<String> = vec![];
-        observe(&w.cur, &w.data, &mut out);
+        observe(&w.cur, &w.data, &None, &mut out);
         let env = &w.cur;
         let data = &w.data;
         let barrier = Barrier::new(THREADS);
@@ -87,7 +87,7 @@ fn main() {
         for r in results {
             out.extend(r);
         }
-        observe(&w.cur, &w.data, &mut out);
+        observe(&w.cur, &w.data, &None, &mut out);
         out
     });
 }
